@@ -228,6 +228,7 @@ func (res *Response) writeChunk(conn net.Conn, data []byte, l int) (int, error) 
 	if totalSize < maxPacketSize {
 		if pbuf == nil {
 			pbuf = mempool.Malloc(totalSize)
+			*pbuf = (*pbuf)[0:0]
 		}
 		pbuf = mempool.AppendString(pbuf, lenStr)
 		pbuf = mempool.AppendString(pbuf, "\r\n")
